@@ -17,7 +17,7 @@ RULE = {
     "run-time: faulting programs in both pipeline modes. every outcome is classified. non-trivial = distinct (fault kind, outcome class) pairs and distinct faulting texts that raised; distinct by hash of the text.",
 }
 ASSUMPTIONS = {"C15": ["'terminates' is restated as: returns within a 20 s watchdog per text (watchdog firing = inconclusive)", "line numbers are judged against text.splitlines(); the line text of the exception is recorded as a diagnostic only"]}
-REQUIRED = {"C15": ["rv_texts", "toy_texts", "parser_exceptions", "loads_ok", "memory_size_or_address_errors", "soups", "runtime_faults_single", "runtime_faults_five", "hostile_literals_injected", "line_numbers_checked"]}
+REQUIRED = {"C15": ["rv_texts", "toy_texts", "parser_exceptions", "loads_ok", "memory_size_or_address_errors", "soups", "runtime_faults_single", "runtime_faults_five", "hostile_literals_injected", "line_numbers_checked", "runtime_cases_with_cache"]}
 
 HOSTILE = ["010", "-01", "00", "007", "0x", "0b", "0b2", "0X1", "0B1", "1e3", "1_0", "1_000", "１２", "١٢", "123456789012345678901234567890", "-123456789012345678901234567890", "+5", "--5", "0x-5", "5-", "0xg", "1.5", "''", "0x1_0", "0o17", "0b", "-", "0b102", "09", "-0", "-00", "0x00000000000000000000000000001", "1 2", "²", "0٠"]
 
@@ -254,7 +254,7 @@ def run_runtime_case(case, res):
             res.count("runtime_faults_" + mode)
             obj = sim.state.instruction_memory.read_instruction(err.address) if isinstance(err.address, int) and sim.state.instruction_memory.instruction_at_address(err.address) else None
             bad = []
-            if case.get("dcache") is None and err.address != want:
+            if (case.get("dcache") is None or case.get("within_word")) and err.address != want:
                 bad.append("address %r, failing instruction is at %r" % (err.address, want))
             if obj is None or err.instruction_repr != repr(obj):
                 bad.append("instruction_repr %r is not the printed form %r of the instruction at %r" % (err.instruction_repr, obj, err.address))
@@ -264,7 +264,7 @@ def run_runtime_case(case, res):
                 res.violation("C15", "runtime-error-fields", "%s mode: %s" % (mode, "; ".join(bad)), case)
                 return
             res.nontrivial(h64([case["prog"], case["regs"], mode]))
-        elif want is not None and case.get("dcache") is None:
+        elif want is not None and (case.get("dcache") is None or case.get("within_word")):
             res.violation("C15", "runtime-fault-missing", "%s mode: reference faults at %r but no InstructionExecutionException was raised" % (mode, want), case)
             return
 
@@ -318,10 +318,20 @@ def run_shard(spec, res):
             else:
                 prog, regs = G.structured_program(rng, size=rng.randint(3, 20), aligned=True, faults=True)
             case = {"kind": "runtime", "prog": prog, "regs": regs, "mem": G.init_mem(rng), "max_instr": 150}
-            if rng.random() < 0.3:
+            if rng.random() < 0.4:
+                # with a data cache the failing instruction is the same one as long as every access stays within one
+                # word (crossing accesses are rejected by the cache, see C03): regenerate such a program
                 from .cache import rand_cfg
 
                 case["dcache"] = rand_cfg(rng, small=True)
+                if rng.random() < 0.5:
+                    case["dcache"]["bb"] = 0
+                prog, regs = G.soup_program(rng, rng.randint(1, 16), aligned=True, mem_w=0.3), G.soup_regs(rng, bad_ecall=0.3)
+                regs["31"] = rng.choice([0, 0x3FF0, 0x3FC0, 0x4000, 0xFFFFFFC0])
+                if rng.random() < 0.5:
+                    prog = [{"m": "sw", "rs1": 0, "rs2": 1, "imm": rng.choice([0, 8, 64])}] + prog if rng.random() < 0.5 else prog + [{"m": "sw", "rs1": 31, "rs2": 1, "imm": -64}]
+                case.update(prog=prog, regs=regs, within_word=True)
+                res.count("runtime_cases_with_cache")
         if "hostile-literal" in case.get("faults", []):
             res.count("hostile_literals_injected")
         guarded(run_case, "C15", case, res)
